@@ -455,6 +455,28 @@ func (c *fctx) rangeStmt() []*S {
 	if assignIn != nil {
 		body = append([]*S{assignIn}, body...)
 	}
+	// ':=' form: every iteration has its own variables. Closures that capture them escape the
+	// iteration (collected in a slice) and are called after the loop has finished; one of them
+	// also writes its variable, which only that iteration's other closure sees
+	var escPre, escPost *S
+	if loop.Op == ":=" && r.Chance(1, 4) {
+		var reads []string
+		if keyInt && loop.Name != "" && loop.Name != "_" {
+			reads = append(reads, loop.Name)
+		}
+		if valInt && loop.Name2 != "" && loop.Name2 != "_" {
+			reads = append(reads, loop.Name2)
+		}
+		if len(reads) > 0 {
+			id := c.g.id()
+			escPre = &S{K: SRaw, ID: id, Src: fmt.Sprintf("var esc%d []func() int", id)}
+			w := reads[r.Intn(len(reads))]
+			body = append(body, &S{K: SRaw, ID: c.g.id(), Src: fmt.Sprintf("esc%[1]d = append(esc%[1]d, func() int { return %[2]s }, func() int { %[3]s += 1000; return %[3]s })", id, strings.Join(reads, "*31 + "), w)})
+			escPost = &S{K: SRaw, ID: c.g.id(), Src: fmt.Sprintf("for i9 := len(esc%[1]d) - 1; i9 >= 0; i9-- {\n\tvrt.E(%[2]d, i9, esc%[1]d[i9]())\n}\nfor _, f9 := range esc%[1]d {\n\tvrt.E(%[3]d, f9())\n}", id, c.g.nextTag(), c.g.nextTag())}
+			pre = append(pre, escPre)
+			c.g.mark("range_define_form_closures_over_the_variables_escape_the_iteration")
+		}
+	}
 	loop.Body = append(body, inner...)
 	if hasYield(loop.Body) {
 		c.g.mark("range_body_yields")
@@ -467,6 +489,9 @@ func (c *fctx) rangeStmt() []*S {
 	}
 	if assignPost != nil {
 		return append(pre, loop, assignPost)
+	}
+	if escPost != nil {
+		return append(pre, loop, escPost)
 	}
 	return append(pre, loop)
 }
